@@ -17,12 +17,23 @@
 //                                 buffer of <size> bytes filled with a5
 //   vsn <size> <fmt-hex> <arg>*   igv_vsnprintf through the shim, as `sn`
 //                                 (sn/vsn result: "<ret> <hex of the whole buffer>")
+// round 3:
+//   pn  <fmt-hex> <arg>*          __printf, judged by the `int`-accurate model printfN: `%n` is allowed
+//                                 (argument N:<slot>, an allocation of exactly sizeof(T) bytes), result
+//                                 "<ret> <hex> n<slot>:<size>:<stored value>*"; a literal width/precision
+//                                 beyond INT_MAX gives "intovf" (atoi overflows: undefined in C)
+//   seq <sub-op> / <sub-op> ...   several calls one after the other in one op (entry-point twins on the
+//                                 same format, interleaved entry points); results joined by " | "
+//   premain <k> <sub-op>          the result of call k made from a constructor that ran BEFORE main()
+//   consts                        PRINT_I_BUFF_SZ, PRINT_S_NULL_STR, type widths ... of the compiled code
 // <arg>:  i:<dec int>  l:<dec int64>  p:<hex>  n: (NULL char*)
 //         s:<hex bytes>  (NUL terminated)   u:<hex bytes> (NOT terminated,
 //         exactly sized allocation: any read past the bytes is an ASan abort)
+//         N:<slot> (pointer for %n)   w:<hex bytes> (wide string: each byte one wchar_t, terminated)
 // result: "<ret> <hex of the characters handed to the callback>"
 #include "common/hv.h"
 #include <cstdarg>
+#include <sys/wait.h>
 #include <climits>
 #include <memory>
 #include <algorithm>
@@ -39,6 +50,14 @@ extern "C" int igv_snprintf(char *buf, size_t maxlen, const char *format, ...);
 #ifndef C06_NO_VSNPRINTF
 extern "C" int igv_vsnprintf(char *buf, size_t maxlen, const char *format, va_list ap);
 #endif
+
+extern "C" int c06c_print_i_buff_sz(void);
+extern "C" const char *c06c_null_str(void);
+extern "C" unsigned long c06c_null_str_size(void);
+extern "C" unsigned c06c_ops(int i);
+extern "C" int c06c_ptr_digits(void);
+extern "C" unsigned long c06c_sizeof_ret(void);
+extern "C" unsigned long c06c_n_size(int i);
 
 using namespace hv;
 typedef std::vector<uint8_t> bytes;
@@ -86,7 +105,11 @@ static bool parse_arg(const std::string &w, Arg &a)
         return true;
     case 's':
     case 'u':
+    case 'w':
         a.s = unhex(r);
+        return true;
+    case 'N':
+        a.v = strtoll(r.c_str(), 0, 10);
         return true;
     }
     return false;
@@ -204,11 +227,16 @@ struct Dir
     char conv = 0;
     int argi = -1; // index of the value argument
     size_t pos = 0; // index of the conversion character in the format
+    size_t start = 0; // index of the directive's '%'
 };
 struct Parsed
 {
     bool defined = true; // ISO defines the behaviour, arguments fit
     bool has_p = false, has_lit_wp = false;
+    bool wide = false;        // %lc / %ls with a wide argument (ISO defines it, the Lean spec leaves it out)
+    bool has_n = false;       // a %n directive
+    bool lit_overflow = false; // a literal width/precision beyond INT_MAX: atoi overflows (undefined in C)
+    bool lit_runnable = true;  // ... and what host atoi makes of it, (int)strtol, is small enough to run
     std::vector<Dir> dirs;
     std::string why;
     std::string need; // kinds of the arguments the format consumes, in order
@@ -229,6 +257,7 @@ static Parsed classify(const bytes &f, const std::vector<Arg> &args)
         if (f[i] != '%')
             continue;
         Dir d;
+        d.start = i;
         i++;
         for (; i < f.size(); i++)
         {
@@ -253,11 +282,19 @@ static Parsed classify(const bytes &f, const std::vector<Arg> &args)
         {
             d.width_kind = 1;
             P.has_lit_wp = true;
+            unsigned long long exact = 0; // saturating at LONG_MAX, like strtol
             while (i < f.size() && isdigit(f[i]))
             {
-                d.width = d.width * 10 + (f[i] - '0');
+                if (d.width <= 100000) d.width = d.width * 10 + (f[i] - '0');
                 if (d.width > 100000) bad("huge width");
+                exact = exact > (unsigned long long)LONG_MAX / 10 - 1 ? (unsigned long long)LONG_MAX : exact * 10 + (unsigned)(f[i] - '0');
                 i++;
+            }
+            if (exact > (unsigned long long)INT_MAX)
+            {
+                P.lit_overflow = true;
+                int wrapped = (int)(long)exact;
+                if (wrapped > 4096 || wrapped < -4096) P.lit_runnable = false;
             }
         }
         if (i < f.size() && f[i] == '.')
@@ -274,11 +311,19 @@ static Parsed classify(const bytes &f, const std::vector<Arg> &args)
             else
             {
                 if (i < f.size() && isdigit(f[i])) P.has_lit_wp = true;
+                unsigned long long exact = 0;
                 while (i < f.size() && isdigit(f[i]))
                 {
-                    d.prec = d.prec * 10 + (f[i] - '0');
+                    if (d.prec <= 100000) d.prec = d.prec * 10 + (f[i] - '0');
                     if (d.prec > 100000) bad("huge precision");
+                    exact = exact > (unsigned long long)LONG_MAX / 10 - 1 ? (unsigned long long)LONG_MAX : exact * 10 + (unsigned)(f[i] - '0');
                     i++;
+                }
+                if (exact > (unsigned long long)INT_MAX)
+                {
+                    P.lit_overflow = true;
+                    int wrapped = (int)(long)exact;
+                    if (wrapped > 4096 || wrapped < -4096) P.lit_runnable = false;
                 }
             }
             if (d.prec < 0) d.prec_kind = 0; // negative precision: as if omitted
@@ -322,13 +367,26 @@ static Parsed classify(const bytes &f, const std::vector<Arg> &args)
             break;
         }
         case 'c':
-            if (d.hash || d.zero || d.prec_kind || !d.len.empty()) bad("option undefined for c");
+            if (d.len == "l" && ai < args.size() && args[ai].kind == 'i' && args[ai].v >= 1 && args[ai].v <= 127)
+                P.wide = true; // %lc of an ASCII wint_t: defined (wcrtomb in the C locale gives the character)
+            else if (!d.len.empty()) bad("option undefined for c");
+            if (d.hash || d.zero || d.prec_kind) bad("option undefined for c");
             d.argi = (int)ai;
             P.need.push_back('i');
             if (ai >= args.size() || args[ai].kind != 'i') bad("arg");
             ai++;
             break;
         case 's':
+            if (d.len == "l" && ai < args.size() && args[ai].kind == 'w')
+            {
+                // %ls of a wide string of ASCII characters: defined
+                P.wide = true;
+                if (d.hash || d.zero) bad("option undefined for s");
+                d.argi = (int)ai;
+                P.need.push_back('w');
+                ai++;
+                break;
+            }
             if (d.hash || d.zero || !d.len.empty()) bad("option undefined for s");
             d.argi = (int)ai;
             P.need.push_back('s');
@@ -352,6 +410,16 @@ static Parsed classify(const bytes &f, const std::vector<Arg> &args)
             if (ai >= args.size() || args[ai].kind != 'p') bad("arg");
             ai++;
             break;
+        case 'n':
+            // ISO defines %n (without flags, width, precision); kept out of the glibc diff (glibc refuses %n in
+            // a writable format under _FORTIFY_SOURCE), judged by its own oracle in `pn`
+            P.has_n = true;
+            d.argi = (int)ai;
+            P.need.push_back('N');
+            if (ai >= args.size() || args[ai].kind != 'N') bad("arg");
+            ai++;
+            bad("n conversion");
+            break;
         default:
             bad("conversion outside the fragment");
         }
@@ -365,8 +433,31 @@ static Parsed classify(const bytes &f, const std::vector<Arg> &args)
 static std::string former_finding_class(const Parsed &P, const std::vector<Arg> &args);
 static std::string res(long ret, const bytes &out) { return std::to_string(ret) + " " + hex(out); }
 
-static void run_op(const std::vector<std::string> &w, const std::string &, out &o)
+// Every op is executed behind the same short history of calls through each entry point (state that leaked
+// from an earlier call - a static buffer, a counter that is not re-initialised - then shows in a one-op replay too).
+static void prime(out &o)
 {
+    exact_buf b(16);
+    int r1 = igv_snprintf((char *)b.p, 16, "q%d", 7); // leaves 13 unused places
+    bool ok = r1 == 2 && !memcmp(b.p, "q7", 3);
+    int r2 = igv_sprintf((char *)b.p, "p%s", "rs");
+    ok = ok && r2 == 3 && !memcmp(b.p, "prs", 4);
+    g_fd_out.clear();
+    g_fd_limit = -1;
+    int r3 = fdprintf(7, "t%c", 'u');
+    ok = ok && r3 == 2 && g_fd_out.size() == 2 && g_fd_out[0] == 't' && g_fd_out[1] == 'u';
+    g_fd_out.clear();
+    if (!ok) o.fail("the priming calls (snprintf q%d / sprintf p%s / fdprintf t%c) gave wrong results");
+}
+
+static void run_one(const std::vector<std::string> &w, out &o)
+{
+    if (w.empty())
+    {
+        o.result = "bad-op";
+        return;
+    }
+    prime(o);
     const std::string &op = w[0];
     size_t k = 1;
     long limit = -1;
@@ -385,7 +476,7 @@ static void run_op(const std::vector<std::string> &w, const std::string &, out &
         limit = sn_big ? 0 : strtol(w[k].c_str(), 0, 10); // fd: error limit; sn: buffer size
         k++;
     }
-    if (!(op == "pf" || op == "pfmin" || op == "sp" || op == "spv" || op == "fd" || op == "iso" || op == "fdv" || is_sn) || w.size() <= k || (is_sn && (limit < 0 || limit > 4096)))
+    if (!(op == "pf" || op == "pn" || op == "pfmin" || op == "sp" || op == "spv" || op == "fd" || op == "iso" || op == "fdv" || is_sn) || w.size() <= k || (is_sn && (limit < 0 || limit > 4096)))
     {
         o.result = "bad-op";
         return;
@@ -416,8 +507,61 @@ static void run_op(const std::vector<std::string> &w, const std::string &, out &
             keep.emplace_back(new exact_buf(m));
             a.buf = keep.back().get();
         }
+        else if (a.kind == 'w')
+        {
+            // a wchar_t array: one element per byte given, and the terminator
+            bytes m;
+            for (auto b : a.s)
+            {
+                wchar_t wc = (wchar_t)b;
+                m.insert(m.end(), (uint8_t *)&wc, (uint8_t *)&wc + sizeof wc);
+            }
+            wchar_t z = 0;
+            m.insert(m.end(), (uint8_t *)&z, (uint8_t *)&z + sizeof z);
+            keep.emplace_back(new exact_buf(m));
+            a.buf = keep.back().get();
+        }
     const char *fmt = (const char *)fb.p;
     Parsed P = classify(f, args);
+    // %n: the pointer argument is an allocation of exactly sizeof(T) bytes (T by the length modifier):
+    // a store of another width is an ASan abort or leaves a5 bytes behind
+    auto n_size = [](const Dir &d) -> size_t {
+        return d.len == "hh" ? 1 : d.len == "h" ? 2 : (d.len == "l" || d.len == "ll" || d.len == "j" || d.len == "z" || d.len == "t") ? 8 : 4;
+    };
+    for (auto &d : P.dirs)
+        if (d.conv == 'n' && d.argi >= 0 && d.argi < (int)args.size() && args[d.argi].kind == 'N' && !args[d.argi].buf)
+        {
+            keep.emplace_back(new exact_buf(n_size(d)));
+            args[d.argi].buf = keep.back().get();
+        }
+    for (auto &a : args)
+        if (a.kind == 'N' && !a.buf) // not consumed by a %n: some valid pointer
+        {
+            keep.emplace_back(new exact_buf(8));
+            a.buf = keep.back().get();
+        }
+    if (P.lit_overflow && op != "pfmin") // (pfmin: the literal probe of C06-star-width-int-min runs the call)
+    {
+        // atoi of the literal overflows `int`: undefined in C, the property fixes nothing.  Where host atoi's
+        // answer ((int)strtol) is small the call is still made: it has to return and stay inside its buffers.
+        o.tag("lit-overflow");
+        if (op != "pn")
+        {
+            o.result = "bad-op";
+            return;
+        }
+        if (P.lit_runnable)
+        {
+            Sink sk;
+            Call c0{W_PRINTF, &sk, nullptr, 0};
+            long r0 = dispatch(&c0, fmt, args, 0);
+            if (r0 != sk.calls)
+                o.fail("return value " + std::to_string(r0) + " != " + std::to_string(sk.calls) + " characters emitted");
+            o.tag("lit-overflow-run");
+        }
+        o.result = "intovf";
+        return;
+    }
     // glibc gets terminated copies (ASan's vsnprintf interceptor insists on a
     // terminator even where the precision makes it unnecessary; where ISO
     // defines the result it does not depend on bytes behind the precision)
@@ -478,6 +622,7 @@ static void run_op(const std::vector<std::string> &w, const std::string &, out &
         if ((a.kind == 'i' || a.kind == 'l') && a.v < 0) o.tag("negative");
     }
     o.tag(P.defined ? "iso-defined" : "iso-undefined");
+    if (P.wide) o.tag("wide");
     {
         std::string fc = former_finding_class(P, args);
         if (!fc.empty()) o.tag(fc == "C06-alt-zero" ? "alt-zero" : "c-nul");
@@ -493,6 +638,34 @@ static void run_op(const std::vector<std::string> &w, const std::string &, out &
 
     if (op == "pf" || op == "pfmin") // pfmin: pf, kept apart for the driver (probes of C06-star-width-int-min)
         o.result = res(ret, out);
+    else if (op == "pn")
+    {
+        o.result = res(ret, out);
+        for (auto &d : P.dirs)
+            if (d.conv == 'n' && d.argi >= 0 && d.argi < (int)args.size() && args[d.argi].kind == 'N')
+            {
+                const Arg &a = args[d.argi];
+                size_t sz = a.buf->n;
+                unsigned long long val = 0;
+                for (size_t q = 0; q < sz; q++) val |= (unsigned long long)a.buf->p[q] << (8 * q);
+                o.result += " n" + std::to_string(a.v) + ":" + std::to_string(sz) + ":" + std::to_string(val);
+                // ISO: "the number of characters written to the output stream so far by this call" =
+                // what the engine emits for the format cut off in front of this directive
+                bytes cut(f.begin(), f.begin() + (long)d.start);
+                cut.push_back(0);
+                exact_buf cb(cut);
+                // (the slots of earlier %n directives are written again with the same values)
+                Sink sk;
+                Call c2{W_PRINTF, &sk, nullptr, 0};
+                dispatch(&c2, (const char *)cb.p, args, 0);
+                unsigned long long expect = (unsigned long long)sk.calls;
+                if (sz < 8) expect &= (1ull << (8 * sz)) - 1;
+                if (val != expect)
+                    o.fail("%n stored " + std::to_string(val) + ", " + std::to_string(sk.calls) + " characters were written so far");
+                o.tag(("n:" + (d.len.empty() ? std::string("int") : d.len)).c_str());
+                if (sk.calls > 255) o.tag("n-count>255");
+            }
+    }
     else if (op == "sp" || op == "spv")
     {
         exact_buf b(out.size() + 1);
@@ -648,6 +821,161 @@ static void run_op(const std::vector<std::string> &w, const std::string &, out &
     }
 }
 
+// ---------------------------------------------------------------- round 3: consts, seq, premain
+static std::string consts_line(out &o)
+{
+    std::string nul(c06c_null_str(), c06c_null_str() + c06c_null_str_size());
+    std::string ns;
+    for (int i = 0; i < 8; i++) ns += (i ? "," : "") + std::to_string(c06c_n_size(i));
+    // the model treats `ops` as a record of independent booleans: sound only if every OPS_* is its own bit
+    bool single = true;
+    unsigned seen = 0;
+    for (int i = 0; i < 17; i++)
+    {
+        unsigned m = c06c_ops(i);
+        if (m == 0 || (m & (m - 1)) || (seen & m)) single = false;
+        seen |= m;
+    }
+    if (!single) o.fail("the OPS_* masks are not distinct single bits");
+    if (c06c_print_i_buff_sz() < 23) o.fail("PRINT_I_BUFF_SZ below 23: 22 octal digits of 2^64-1 and the terminator do not fit");
+    return "PRINT_I_BUFF_SZ=" + std::to_string(c06c_print_i_buff_sz()) + " PRINT_S_NULL_STR=" + hex(nul) +
+           " ptr_digits=" + std::to_string(c06c_ptr_digits()) + " int_max=" + std::to_string(INT_MAX) +
+           " sizeof_pc=" + std::to_string(c06c_sizeof_ret()) + " n_sizes=" + ns + " ops_single_bits=" + (single ? "1" : "0");
+}
+
+// calls made BEFORE main(): a constructor with the highest priority runs a few ops through the same code path
+// as `run` and keeps the records (static-initialisation-order dependencies of the engine would show here)
+static const char *const PREMAIN[] = {
+    "sp 25647c2535737c252378 i:-42 s:6162 i:255",    // %d|%5s|%#x
+    "sn 4 256c6c64 l:123456789",                       // %lld into 4 bytes
+    "fd -1 25632563252520252d33647c i:65 i:0 i:7",     // %c%c%% %-3d|
+    "spv 3c25703e p:1234",                             // <%p>
+    "pn 61253034646225686e i:7 N:0",                   // a%04db%hn
+};
+static const int NPREMAIN = (int)(sizeof PREMAIN / sizeof PREMAIN[0]);
+struct PremainRec
+{
+    char result[160], oracle[200];
+};
+static PremainRec g_premain[8];
+struct PremainRunner
+{
+    PremainRunner()
+    {
+        // only in `run` mode (argv is not available to a constructor: /proc/self/cmdline)
+        char cl[256] = {0};
+        FILE *fp = fopen("/proc/self/cmdline", "r");
+        size_t got = fp ? fread(cl, 1, sizeof cl - 1, fp) : 0;
+        if (fp) fclose(fp);
+        size_t a0 = strnlen(cl, got);
+        if (a0 + 1 >= got || strcmp(cl + a0 + 1, "run") != 0)
+            return;
+        // the calls run in a forked child (still before main()): if one of them aborts, the parent lives on and
+        // the `premain k` op reports it, instead of the whole harness dying in front of every op
+        for (int k = 0; k < NPREMAIN; k++)
+        {
+            snprintf(g_premain[k].result, sizeof g_premain[k].result, "CRASH before main()");
+            snprintf(g_premain[k].oracle, sizeof g_premain[k].oracle, "FAIL crash in a call made before main()");
+        }
+        int fd[2];
+        if (pipe(fd) != 0) return;
+        fflush(stdout);
+        pid_t pid = fork();
+        if (pid == 0)
+        {
+            close(fd[0]);
+            for (int k = 0; k < NPREMAIN; k++)
+            {
+                out o;
+                run_one(words(PREMAIN[k]), o);
+                PremainRec rec;
+                memset(&rec, 0, sizeof rec);
+                snprintf(rec.result, sizeof rec.result, "%s", o.result.c_str());
+                snprintf(rec.oracle, sizeof rec.oracle, "%s", o.oracle.c_str());
+                if (write(fd[1], &rec, sizeof rec) != (ssize_t)sizeof rec) _exit(3);
+            }
+            _exit(0);
+        }
+        close(fd[1]);
+        for (int k = 0; k < NPREMAIN && pid > 0; k++)
+        {
+            PremainRec rec;
+            size_t have = 0;
+            while (have < sizeof rec)
+            {
+                ssize_t n = read(fd[0], (char *)&rec + have, sizeof rec - have);
+                if (n <= 0) break;
+                have += (size_t)n;
+            }
+            if (have != sizeof rec) break;
+            g_premain[k] = rec;
+        }
+        close(fd[0]);
+        if (pid > 0) waitpid(pid, 0, 0);
+    }
+};
+static PremainRunner g_premain_runner __attribute__((init_priority(101)));
+
+static void run_op(const std::vector<std::string> &w, const std::string &, out &o)
+{
+    if (w.size() == 1 && w[0] == "consts")
+    {
+        o.result = consts_line(o);
+        o.tag("consts");
+        return;
+    }
+    if (!w.empty() && w[0] == "premain")
+    {
+        int k = w.size() > 1 ? atoi(w[1].c_str()) : -1;
+        std::string rest;
+        for (size_t i = 2; i < w.size(); i++) rest += (i > 2 ? " " : "") + w[i];
+        if (k < 0 || k >= NPREMAIN || rest != PREMAIN[k])
+        {
+            o.result = "bad-op";
+            return;
+        }
+        o.result = g_premain[k].result;
+        o.oracle = g_premain[k].oracle;
+        // and the same call now, after main() started, gives the same answer
+        out again;
+        run_one(words(PREMAIN[k]), again);
+        if (again.result != o.result) o.fail("the call before main() gave " + o.result + ", now " + again.result);
+        o.tag("premain");
+        return;
+    }
+    if (!w.empty() && w[0] == "seq")
+    {
+        std::vector<std::vector<std::string>> subs(1);
+        for (size_t i = 1; i < w.size(); i++)
+            if (w[i] == "/") subs.emplace_back();
+            else subs.back().push_back(w[i]);
+        std::string prev_key;
+        long prev_ret = 0;
+        bool have_prev = false;
+        for (size_t i = 0; i < subs.size(); i++)
+        {
+            out so;
+            run_one(subs[i], so);
+            o.result += (i ? " | " : "") + so.result;
+            if (so.oracle != "ok") o.fail("call " + std::to_string(i + 1) + ": " + so.oracle.substr(5));
+            if (!so.tags.empty()) o.tag(so.tags.c_str());
+            // twins on the same format and arguments: the same value is returned by every entry point
+            // (except vfdprintf/fdprintf after a write error: -1)
+            const std::string &sop = subs[i].empty() ? so.result : subs[i][0];
+            bool numbered = sop == "sn" || sop == "vsn" || sop == "fd" || sop == "fdv";
+            std::string key;
+            for (size_t q = numbered ? 2 : 1; q < subs[i].size(); q++) key += subs[i][q] + " ";
+            long ret = strtol(so.result.c_str(), 0, 10);
+            if (have_prev && key == prev_key && ret != prev_ret && ret != -1 && prev_ret != -1)
+                o.fail("entry points disagree on the return value for the same format: " + std::to_string(prev_ret) + " / " + std::to_string(ret));
+            if (ret != -1 || !have_prev || key != prev_key) { prev_key = key; prev_ret = ret; have_prev = true; }
+        }
+        o.tag("seq");
+        return;
+    }
+    run_one(w, o);
+}
+
 // ---------------------------------------------------------------- gen
 // ---- generator (included by C06.cpp) ------------------------------------
 static std::string arg_str(const Arg &a)
@@ -665,6 +993,8 @@ static std::string arg_str(const Arg &a)
     }
     case 'n':
         return "n:";
+    case 'N':
+        return "N:" + std::to_string(a.v);
     default:
         return std::string(1, a.kind) + ":" + hex(a.s);
     }
@@ -687,8 +1017,12 @@ static unsigned long long conv_u(const Dir &d, long long v)
 // repaired (fix: 8be88bc, ff2efab): they are ordinary ops now and only tagged.
 static std::string finding_key(const Parsed &P, const std::vector<Arg> &args)
 {
-    (void)P;
-    (void)args;
+    // C06-wide-ls (round 3): %ls reads its wchar_t array as a char string (the `l` is ignored, TODO in the
+    // source): wrong as soon as ISO's output has two or more characters
+    for (auto &d : P.dirs)
+        if (d.conv == 's' && d.len == "l" && d.argi >= 0 && d.argi < (int)args.size() && args[d.argi].kind == 'w' &&
+            args[d.argi].s.size() >= 2 && (!d.prec_kind || d.prec >= 2))
+            return "C06-wide-ls";
     return "";
 }
 static std::string former_finding_class(const Parsed &P, const std::vector<Arg> &args)
@@ -730,7 +1064,7 @@ static void emit(const char *op, const bytes &f, const std::vector<Arg> &args, b
         line += " " + arg_str(a);
     printf("%s%s %s\n", key.empty() ? "" : ("@F:" + key + " ").c_str(), op, line.c_str());
     g_emitted++;
-    if (with_iso && P.defined)
+    if (with_iso && P.defined && !P.wide)
         printf("iso %s\n", line.c_str());
 }
 
@@ -1019,6 +1353,241 @@ static void gen_wrappers(rng &r, bool th)
     }
 }
 
+// ---- round 3 generators ---------------------------------------------------
+static Arg AW(const bytes &s) { Arg a; a.kind = 'w'; a.s = s; return a; }
+static Arg AN(int slot) { Arg a; a.kind = 'N'; a.v = slot; return a; }
+static std::string sub_text(const char *op, const char *n, const bytes &f, const std::vector<Arg> &args)
+{
+    std::string line = op;
+    if (n) line += std::string(" ") + n;
+    line += " " + hex(f);
+    for (auto &a : args) line += " " + arg_str(a);
+    return line;
+}
+static void put_n(rng &r, bytes &f, std::vector<Arg> &args, int &slot, bool decorated)
+{
+    static const char *const nl[] = {"", "hh", "h", "l", "ll", "j", "z", "t", "", "hh"};
+    f.push_back('%');
+    if (decorated)
+    {
+        // flags, a width, a precision on %n: undefined in ISO, parsed and ignored by the code
+        static const char *const deco[] = {"-", "0", "5", "#", ".3", "+ ", "12.4"};
+        for (const char *c = deco[r.below(7)]; *c; c++) f.push_back((uint8_t)*c);
+    }
+    for (const char *c = nl[r.below(10)]; *c; c++) f.push_back((uint8_t)*c);
+    f.push_back('n');
+    args.push_back(AN(slot++));
+}
+// one strict (ISO-defined) directive as in rnd_format
+static void put_rnd_dir(rng &r, bytes &f, std::vector<Arg> &args, long maxw)
+{
+    Spec s;
+    s.conv = CONVS[r.below(10)];
+    unsigned mask = (unsigned)r.below(32);
+    if (strchr("diucsp", s.conv)) mask &= ~8u;
+    if (strchr("csp", s.conv)) mask &= ~16u;
+    if (s.conv == 'p') mask &= 1u;
+    if (s.conv == '%') mask = 0;
+    s.flags = flags_of(r, mask);
+    if (s.conv != '%')
+    {
+        int wk = (int)r.below(4);
+        s.width = wk == 0 ? "" : wk == 1 ? "*" : std::to_string(r.range(1, maxw));
+        s.wstar = r.range(-maxw, maxw);
+        if (!(s.conv == 'c' || s.conv == 'p'))
+        {
+            int pk = (int)r.below(5);
+            s.prec = pk == 0 ? "" : pk == 1 ? ".*" : pk == 2 ? "." : "." + std::to_string(r.range(0, 12));
+            s.pstar = r.range(-2, 12);
+        }
+        if (!strchr("csp", s.conv) && r.chance(50)) s.len = LENS[r.below(LENS.size())];
+    }
+    put_dir(r, s, f, args);
+}
+
+static void gen_round3(rng &r, bool th)
+{
+    printf("consts\n");
+    for (int k = 0; k < NPREMAIN; k++) printf("premain %d %s\n", k, PREMAIN[k]);
+
+    // (7) %n: every length modifier at the counts where the converted value changes
+    {
+        static const char *const nl[] = {"", "hh", "h", "l", "ll", "j", "z", "t"};
+        static const long cnts[] = {0, 1, 2, 127, 128, 255, 256, 257, 300, 32767, 32768, 65535, 65536, 65537};
+        for (const char *l : nl)
+            for (long cnt : cnts)
+            {
+                std::string d = std::string("%*s%") + l + "n|";
+                emit("pn", B(d), {AI(cnt), AS(B(""), true), AN(0)});
+            }
+        emit("pn", B("%n"), {AN(0)});
+        emit("pn", B("%n%n%hhn"), {AN(0), AN(1), AN(2)});
+        emit("pn", B("abc%ndef%lln%%%hn"), {AN(0), AN(1), AN(2)});
+        emit("pn", B("%5n|%-n|%.3n|%*n|%0hhn"), {AN(0), AN(1), AN(2), AI(7), AN(3), AN(4)});
+        emit("pn", B("%Ln"), {AN(0)});
+        long n7 = th ? 20000 : 3000;
+        for (long k = 0; k < n7; k++)
+        {
+            bytes f;
+            std::vector<Arg> args;
+            int slot = 0;
+            int nseg = (int)r.range(1, 4);
+            for (int q = 0; q < nseg; q++)
+            {
+                bytes lit = rnd_text(r, (size_t)r.below(5), true);
+                f.insert(f.end(), lit.begin(), lit.end());
+                if (args.size() + 3 <= MAXARGS && r.chance(70)) put_rnd_dir(r, f, args, r.chance(10) ? 300 : 14);
+                if (args.size() + 1 <= MAXARGS && r.chance(60)) put_n(r, f, args, slot, r.chance(8));
+            }
+            emit("pn", f, args);
+        }
+        // the ordinary stream through the int-accurate model as well
+        long n7b = th ? 8000 : 1500;
+        for (long k = 0; k < n7b; k++)
+        {
+            bytes f;
+            std::vector<Arg> args;
+            rnd_format(r, f, args);
+            emit("pn", f, args);
+        }
+    }
+    // (8) literal widths / precisions of 10 and more digits: atoi overflows `int`
+    {
+        static const char *const big[] = {"%4294967301d", "%4294967296d|", "%99999999999999999999d", "%-4294967299s|",
+                                          "%.4294967298d", "%.99999999999999999999d", "%.4294967297s", "%9999999999d",
+                                          "%2147483653s", "%.2147483648d", "%.9223372036854775808x", "%18446744073709551616d",
+                                          "%5.4294967300d|%d", "a%4294967297cb"};
+        for (std::string d : big)
+        {
+            bytes f = B(d);
+            Parsed P = classify(f, {});
+            std::vector<Arg> args;
+            for (char kd : P.need) args.push_back(kd == 'i' ? AI(r.pick(IVALS)) : AS(B("xyz"), true));
+            emit("pn", f, args);
+        }
+        // the literal form of the recorded finding: atoi gives INT_MIN on this host, `width = -width` overflows
+        printf("@F:C06-star-width-int-min pfmin %s i:7\n", hex(B("%2147483648d")).c_str());
+    }
+    // (9) `*` and literal widths / precisions at the 8- and 16-bit boundaries
+    {
+        static const long bw[] = {254, 255, 256, 257, 4095, 4096, 4097, 65534, 65535, 65536, 65537, -255, -256, -65536};
+        for (long w : bw)
+        {
+            emit("pf", B("%*d|"), {AI(w), AI(r.pick(IVALS))}, true);
+            emit("pf", B("%-*s|"), {AI(w), AS(B("ab"), true)}, true);
+            emit("pf", B("<%*p>"), {AI(w), AP(r.pick(PVALS))}, false);
+            if (w >= 0)
+            {
+                emit("pf", B("%.*d|"), {AI(w), AI(r.pick(IVALS))}, true);
+                emit("pf", B("%#.*llo|"), {AI(w), AL(r.pick(LVALS))}, true);
+                emit("pf", B("%" + std::to_string(w) + "u|"), {AI(r.pick(IVALS))}, true);
+                emit("pf", B("%." + std::to_string(w) + "x|"), {AI(r.pick(IVALS))}, true);
+                bytes longs((size_t)w + 3, 'q');
+                emit("pf", B("%.*s|"), {AI(w), AS(longs, true)}, true);
+                bytes exact((size_t)w, 'r');
+                if (w) emit("pf", B("%.*s|"), {AI(w), AS(exact, false)}, true);
+                if (w <= 4095)
+                {
+                    emit_n("sn", w, B("%*d"), {AI(w), AI(5)}); // the output is exactly one longer than the buffer holds
+                    emit_n("vsn", w + 1, B("%*d"), {AI(w), AI(5)});
+                }
+            }
+        }
+    }
+    // (10) long inputs (the routines are linear): 330 000 / 300 000 characters
+    {
+        bytes big(330000), unt(300000);
+        for (size_t i = 0; i < big.size(); i++) big[i] = (uint8_t)('a' + i % 26);
+        for (size_t i = 0; i < unt.size(); i++) unt[i] = (uint8_t)('A' + i % 26);
+        emit("pf", B("%s"), {AS(big, true)}, true);
+        emit("pf", B("[%.*s]"), {AI(300000), AS(unt, false)}, true);
+        emit("pf", B("%-99999d|%099999d|%.99999x"), {AI(-5), AI(-5), AI(255)}, true);
+        emit("sp", B("<%s>"), {AS(big, true)});
+        emit_n("sn", 0, B("%s"), {AS(big, true)});
+        emit_n("sn", 1, B("%s"), {AS(big, true)});
+        emit_n("vsn", 4096, B("%s"), {AS(big, true)});
+        // (exactly fitting with a long output: the model's snprintf writes through List.set, quadratic - 4 000 characters)
+        emit_n("sn", 4001, B("%.4000s"), {AS(big, true)});
+        emit_n("vsn", 4000, B("%.4000s"), {AS(big, true)});
+        emit_n("fd", 299999, B("%s"), {AS(big, true)});
+        emit_n("fdv", -1, B("%s"), {AS(big, true)});
+    }
+    // (11) every entry point on the same format and arguments, in one process state, one after the other;
+    //      sizes 0, 1, exactly fitting, one short, SIZE_MAX; and random interleavings of different calls
+    {
+        static const char *const fixed_[] = {"", "a", "%d", "%5d|", "x=%x", "%s", "%.3s|%c", "%%", "%p", "%lld %s", "%-8.3o|%+i"};
+        std::vector<std::pair<bytes, std::vector<Arg>>> pool;
+        for (std::string d : fixed_)
+        {
+            bytes f = B(d);
+            Parsed P = classify(f, {});
+            std::vector<Arg> args;
+            for (char kd : P.need)
+                args.push_back(kd == 'i' ? AI(r.pick(IVALS)) : kd == 'l' ? AL(r.pick(LVALS)) : kd == 'p' ? AP(r.pick(PVALS)) : AS(B("hello"), true));
+            pool.push_back({f, args});
+        }
+        long n11 = th ? 3000 : 300;
+        for (long k = 0; k < n11; k++)
+        {
+            bytes f;
+            std::vector<Arg> args;
+            rnd_format(r, f, args);
+            pool.push_back({f, args});
+        }
+        for (auto &fa : pool)
+        {
+            const bytes &f = fa.first;
+            const std::vector<Arg> &args = fa.second;
+            long n = out_len_hint(f, args);
+            std::vector<std::string> sizes = {"0", "1", std::to_string(n), std::to_string(n + 1), std::to_string(n + 2), "18446744073709551615"};
+            for (auto &sz : sizes)
+            {
+                if (strtoull(sz.c_str(), 0, 10) > 4096 && sz.size() < 10) continue;
+                std::string lim = std::to_string(r.range(-1, n + 1));
+                printf("seq %s / %s / %s / %s / %s / %s / %s\n", sub_text("sp", nullptr, f, args).c_str(),
+                       sub_text("spv", nullptr, f, args).c_str(), sub_text("sn", sz.c_str(), f, args).c_str(),
+                       sub_text("vsn", sz.c_str(), f, args).c_str(), sub_text("fd", "-1", f, args).c_str(),
+                       sub_text("fdv", lim.c_str(), f, args).c_str(), sub_text("pf", nullptr, f, args).c_str());
+                g_emitted++;
+                if (&fa - &pool[0] >= 11 && &sz - &sizes[0] >= 1) break; // random formats: two sizes each
+            }
+        }
+        long n11b = th ? 3000 : 400;
+        static const char *const ops_[] = {"sp", "spv", "sn", "vsn", "fd", "fdv", "pf", "pn"};
+        for (long k = 0; k < n11b; k++)
+        {
+            int nc = (int)r.range(2, 6);
+            std::string line = "seq";
+            for (int q = 0; q < nc; q++)
+            {
+                const auto &fa = r.chance(30) ? pool[r.below(11)] : pool[r.below(pool.size())];
+                const char *op = ops_[r.below(8)];
+                long n = out_len_hint(fa.first, fa.second);
+                std::string num;
+                if (!strcmp(op, "sn") || !strcmp(op, "vsn")) num = std::to_string(r.chance(50) ? r.range(0, 3) : std::max(0L, n + r.range(-2, 2)));
+                if (!strcmp(op, "fd") || !strcmp(op, "fdv")) num = std::to_string(r.range(-1, n + 1));
+                line += (q ? " / " : " ") + sub_text(op, num.empty() ? nullptr : num.c_str(), fa.first, fa.second);
+            }
+            printf("%s\n", line.c_str());
+            g_emitted++;
+        }
+    }
+    // (12) %lc / %ls: the code ignores the `l`
+    {
+        for (int v : {1, 65, 97, 126, 127}) emit("pf", B("[%lc]"), {AI(v)}, true);
+        emit("pf", B("[%-4lc|%4lc]"), {AI(66), AI(67)}, true);
+        emit("pf", B("%ls"), {AW(B(""))}, true);
+        emit("pf", B("%ls|"), {AW(B("a"))}, true);
+        emit("pf", B("%.1ls|"), {AW(B("ab"))}, true);
+        emit("pf", B("%5ls|%-5ls|"), {AW(B("a")), AW(B("b"))}, true);
+        emit("pf", B("%.0ls|"), {AW(B("abc"))}, true);
+        // finding C06-wide-ls (emit() marks them as probes)
+        emit("pf", B("%ls"), {AW(B("ab"))}, true);
+        emit("pf", B("<%.2ls>"), {AW(B("abc"))}, true);
+        emit("pf", B("<%6ls>"), {AW(B("hello"))}, true);
+    }
+}
+
 static void gen(rng &r, const std::string &tier)
 {
     bool th = tier == "thorough";
@@ -1188,6 +1757,7 @@ static void gen(rng &r, const std::string &tier)
         }
     }
     gen_wrappers(r, th);
+    gen_round3(r, th);
     // probes of the recorded finding C06-star-width-int-min: `width = -width`
     // on INT_MIN is a signed overflow (UBSan aborts); excluded from the stream
     // everywhere else (classify: "width INT_MIN", generators keep `*` small)
